@@ -32,6 +32,18 @@ def relabel(orc, sentence):
         return out
     return f
 
+def relabel_if(orc, sentence, words):
+    """as relabel, keeping only the failures whose own sentence mentions one of `words`"""
+    def f(run):
+        out = []
+        for x in orc(run):
+            if any(w in x.get('sentence', '') for w in words):
+                x = dict(x)
+                x['sentence'] = sentence + ' [' + x.get('sentence', '') + ']'
+                out.append(x)
+        return out
+    return f
+
 def sched(n, **kw):
     return {'scen': 'sched', 'args': dict(kw), 'n': n}
 
@@ -80,10 +92,10 @@ P('C09', theorems=['Tcs.C09_frame', 'Tcs.C09_own_record_only', 'Tcs.asRunH_proje
   plan={'quick': [hist('c09', 200, 'mem:lib,sql:lib,sql:http', proj='1')], 'thorough': [hist('c09', 3000, 'mem:lib,sql:lib,sql:http', proj='1')]})
 P('C13', theorems=['Tcs.C13_any_two_backends', 'Tcs.C13_backends_agree', 'Tcs.C13_no_storage_error', 'Tcs.C13_reopen'],
   owned={'av.kind', 'av.latest', 'av.urgency', 'gcv.kind', 'gcv.ids', 'gcv.payload', 'snap.accept', 'snap.vid', 'snap.payload', 'gs.kind', 'as.kind', 'state.dump'},
-  oracles=[],
+  oracles=[O.o_c13_max],
   aligned=[('mem:lib', 'sql:lib', 'C13: the same request history yields the same responses on every storage backend'),
            ('sql:lib', 'sqlre:lib', 'C13: closing and reopening the database between any two requests changes no later response')],
-  plan={'quick': [hist('c13', 260, ALL3)], 'thorough': [hist('c13', 6000, ALL3), hist('long', 500, ALL3)]})
+  plan={'quick': [hist('c13', 260, ALL3), {'scen': 'maxrow', 'args': {}, 'n': 2, 'shards': 2}], 'thorough': [hist('c13', 6000, ALL3), hist('long', 500, ALL3), {'scen': 'maxrow', 'args': {}, 'n': 8, 'shards': 4}]})
 P('C18', theorems=['Tcs.C18_spec', 'Tcs.C18_no_id', 'Tcs.C18_noop', 'Tcs.C18_tables', 'Tcs.C18_tables_sql', 'Tcs.C18_tables_mem', 'Tcs.readsPure_sql', 'Tcs.readsPure_mem', 'Tcs.run_readOnly'],
   owned={'noop.dump'},
   oracles=[O.o_c18, relabel(O.o_c15, 'C18: any refused request leaves every client\'s stored state exactly as it was')],
@@ -96,10 +108,11 @@ P('C03', theorems=['Tcs.C03_linearizable_partial', 'Tcs.C03_library_linearizable
   owned={'conc.trace', 'conc.resp', 'dump.own', 'dump.other'},
   oracles=[O.o_c03],
   plan={'quick': [{'scen': 'sched', 'args': {}, 'n': 180}], 'thorough': [{'scen': 'sched', 'args': {}, 'n': 4000}, {'scen': 'sched', 'args': {'probe': '1', 'corpus': '0'}, 'n': 300}]})
-P('C04', theorems=['Tcs.C04_atomic', 'Tcs.C04_ack_durable', 'Tcs.C04_ack_after_commit', 'Tcs.C04_sql_commit', 'Tcs.C04_ack_or_error', 'Tcs.C04_ack_before_crash', 'Tcs.crash_state_between_txns', 'Tcs.allCommitLast_serve'],
+P('C04', needs_binary=True, theorems=['Tcs.C04_atomic', 'Tcs.C04_ack_durable', 'Tcs.C04_ack_after_commit', 'Tcs.C04_sql_commit', 'Tcs.C04_ack_or_error', 'Tcs.C04_ack_before_crash', 'Tcs.crash_state_between_txns', 'Tcs.allCommitLast_serve'],
   owned={'av.kind', 'as.kind', 'http.status.av', 'http.status.as', 'http.headers.av', 'snap.accept', 'state.dump'},
-  oracles=[O.o_c04],
-  plan={'quick': [{'scen': 'crash', 'args': {}, 'n': 8}], 'thorough': [{'scen': 'crash', 'args': {'subsets': 10}, 'n': 60}, {'scen': 'crash', 'args': {'big': '1'}, 'n': 6}]})
+  oracles=[O.o_c04, O.o_c04_bin],
+  plan={'quick': [{'scen': 'crash', 'args': {}, 'n': 8}, {'scen': 'py:c17', 'args': {'mode': 'crashbin'}, 'n': 3, 'shards': 3}],
+        'thorough': [{'scen': 'crash', 'args': {'subsets': 10}, 'n': 60}, {'scen': 'crash', 'args': {'big': '1'}, 'n': 6}, {'scen': 'py:c17', 'args': {'mode': 'crashbin'}, 'n': 40, 'shards': 8}]})
 P('C17', theorems=['Tcs.C17_flag_over_env', 'Tcs.C17_resolve_ignores_env_when_flags', 'Tcs.C17_env_used_when_no_flag', 'Tcs.C17_defaults', 'Tcs.C17_listen_required', 'Tcs.C17_listen_all', 'Tcs.C17_allowlist_exact', 'Tcs.C17_wiring', 'Tcs.C17_listen_all_or_nothing'], needs_binary=True,
   owned={'cfg.start', 'cfg.listen', 'cfg.dir', 'cfg.restart', 'http.status', 'http.urgency', 'http.headers'},
   oracles=[O.o_c17],
@@ -131,10 +144,11 @@ P('C15', theorems=['Tcs.C15_refused', 'Tcs.C15_unknown_route', 'Tcs.C15_refused_
   oracles=[O.o_c15],
   plan={'quick': [grammar(16, 160, lists='none,one'), grammar(2, 24, big='1', backends='mem', lists='none')],
         'thorough': [grammar(160, 300, lists='none,one,many'), grammar(8, 60, big='1', backends='mem,sql', lists='none')]})
-P('C16', theorems=['Tcs.C16_unlisted', 'Tcs.C16_unlisted_403', 'Tcs.C16_listed_transparent', 'Tcs.C16_no_list', 'Tcs.C16_empty_list', 'Tcs.serve_factor'],
+P('C16', theorems=['Tcs.C16_unlisted', 'Tcs.C16_unlisted_403', 'Tcs.C16_listed_transparent', 'Tcs.C16_no_list', 'Tcs.C16_empty_list', 'Tcs.serve_factor'], needs_binary=True,
   owned={'http.status', 'calls.txns', 'noop.dump'},
-  oracles=[O.o_c16],
-  plan={'quick': [grammar(24, 150, lists='one,many,empty,none')], 'thorough': [grammar(240, 300, lists='one,many,empty,none')]})
+  oracles=[O.o_c16, relabel_if(O.o_c17, 'C16: with an allow-list configured, every request carrying any other client id is refused with 403 and listed clients are served - by the real executable, whatever its log level', ['allow-list', 'listed clients'])],
+  plan={'quick': [grammar(24, 150, lists='one,many,empty,none'), {'scen': 'py:c17', 'args': {}, 'n': 18, 'shards': 6}],
+        'thorough': [grammar(240, 300, lists='one,many,empty,none'), {'scen': 'py:c17', 'args': {}, 'n': 120, 'shards': 12}]})
 P('C20', theorems=['Tcs.C20_all_responses', 'Tcs.C20_value', 'Tcs.C20_wrapper_idempotent'], needs_binary=True,
   owned={'http.cache'},
   oracles=[O.o_c20],
